@@ -23,7 +23,8 @@ RecGuards(e) == {<<"G_C20_HistoryPreserved", \A u \in Users : ObsIds(e, u) = Ids
 StreamGuards(e) ==
     LET resp == e.responded fast == e.fast IN
     {<<"G_C20_Published", \A i \in DOMAIN resp : \E j \in DOMAIN fast : fast[j] = resp[i]>>,
-     <<"G_C20_SameBytes", \A j \in DOMAIN fast : fast[j] # 0>>,
+     \* ... also for certificates signed back to back while the events were still queued
+     <<"G_C20_SameBytes", (\A j \in DOMAIN fast : fast[j] # 0) /\ e.burst > 0 /\ e.burstMismatch = 0>>,
      \* responses are numbered in issuing order, so "subsequence of the responses" is "strictly increasing"
      <<"G_C20_Order", \A i, j \in DOMAIN fast : i < j => fast[i] < fast[j]>>,
      \* floodMs = -1: 24000 publications (36 MB) did not all return within 20 s while a subscriber was not reading
